@@ -1,7 +1,8 @@
 """C15 -- queries are pure; optimize changes only vertex poses (effect analysis, Engine B + C)."""
 import ast
 
-from ..effects import Analysis, path_str, touches_protected, last_attr, is_fresh, PROTECTED_ATTRS
+from ..effects import (Analysis, path_str, touches_protected, last_attr, is_fresh, PROTECTED_ATTRS, numerical_jacobian_functions,
+                       is_numjac_perturbation)
 from ..cfg import CFG
 from ..model import fn_label, AnalysisError
 
@@ -18,9 +19,11 @@ def where(ev):
     return ev.where()
 
 
+_PKG = [None]
+
+
 def is_jacobian_perturbation(ev):
-    return ev.fn.name == "_calc_jacobian" and getattr(ev.fn, "_gs_class", None) == "BaseEdge" and ev.kind == "AttrStore" \
-        and last_attr(ev.path) == "pose"
+    return is_numjac_perturbation(_PKG[0], ev)
 
 
 def query_entry_points(pkg, an):
@@ -149,7 +152,7 @@ def names_in(e):
 
 
 def rule_E2(run_, pkg, an):
-    fn = pkg.own_method("BaseEdge", "_calc_jacobian")
+    fn, _parts = numerical_jacobian_functions(pkg)     # private helpers of _calc_jacobian are inlined
     if fn is None:
         run_.error("anchor vanished: BaseEdge._calc_jacobian")
         return
@@ -332,6 +335,7 @@ def run(run_, pkg, tier):
     run_.assumptions = ["bit-exactness of restoring an SE(2) pose through copy() (wrap idempotence) is a floating-point fact, not decided",
                         "repeated calls return identical values: follows from purity + determinism (no time/random/io reachable)"]
     an = Analysis(pkg)
+    _PKG[0] = pkg
     positive_fixture(run_, pkg)
     rule_E1_E6(run_, pkg, an)
     rule_E2(run_, pkg, an)
